@@ -4,6 +4,7 @@ from rules import misc as M
 from rules import tables as T
 from rules import operators as OP
 from rules import shape as SH
+from rules import shell as S
 
 
 def run(ctx):
@@ -16,6 +17,7 @@ def run(ctx):
     ctx.run(OP.nul3_sentinel_survives_casts)
     ctx.run(OP.pan5_result_type_lattice_total)
     ctx.run(SH.flw26_row_and_column_view_one_window)
+    ctx.run(S.tbl24_statement_destructured_exhaustively)
     return ctx.finish(
         'MIR dataflow: interprocedural taint of values read from LimitClause fields (the limit may '
         'be the sentinel u64::MAX); no unchecked + / * on such a value and no unchecked subtraction '
